@@ -5,7 +5,7 @@
 From Coq Require Import List NArith ZArith Arith Bool Lia ZifyBool ZifyNat ZifyN.
 From RecordUpdate Require Import RecordUpdate.
 From Iodine Require Import Generated.SrcConsts Base Codec Hostname DnsName DnsMsg Domain Server
-  ServerSafetyProofs ServerSafetyOps ServerSafetyStep ServerSafetyStep2.
+  ServerSafetyProofs ServerSafetyOps ServerSafetyStep ServerSafetyStep2 ServerSafetyFrame.
 Import ListNotations.
 Local Open Scope N_scope.
 
@@ -71,3 +71,77 @@ Proof.
 Qed.
 
 End Run.
+
+(* ---- query_datalen: domain_len never exceeds the name --------------------------------------------- *)
+
+Lemma qd_scan_lt : forall rq rd n, qd_scan rq rd = Some n -> (n < length rq)%nat.
+Proof.
+  induction rq as [|qc rq IH]; intros rd n H; [discriminate|].
+  destruct rd as [|dc rd]; [discriminate|].
+  cbn [qd_scan] in H.
+  destruct (dc =? ch_star).
+  - destruct (qc =? ch_star); [discriminate|].
+    destruct (at_boundary rq); [inversion H; cbn [length]; lia|].
+    apply IH in H. cbn [length]. lia.
+  - destruct (Domain.tolower qc =? Domain.tolower dc); [|discriminate].
+    destruct rd as [|dc' rd'].
+    + destruct (at_boundary rq); [inversion H; cbn [length]; lia|discriminate].
+    + apply IH in H. cbn [length]. lia.
+Qed.
+
+(* domain_len = query_datalen(q.name, topdomain) < strlen(q.name) <= 255 < sizeof(in) = 512:
+   memcpy(in, q->name, MIN(domain_len, sizeof(in))) copies exactly domain_len initialised bytes *)
+Lemma query_datalen_lt q d n : query_datalen q d = Some n -> (n < length q)%nat.
+Proof.
+  unfold query_datalen. destruct (_ || _); [discriminate|]. intros H.
+  apply qd_scan_lt in H. rewrite rev_length in H. exact H.
+Qed.
+
+(* ---- a run of hostile datagrams leaves an established session untouched --------------------------- *)
+
+Section Hostile.
+Variable login : list N -> N -> list N.
+Variable zc : list N -> list N.
+Variable unz : list N -> option (list N).
+
+(* a datagram that is hostile to slot u in state st: its sender does not pass u's access check, is
+   not a logged-in client of any slot, u's session is alive, and the datagram is not a raw login
+   frame carrying u's login hash *)
+Definition hostile_step (c : cfg) (u : nat) (st : sstate) (e : devent) : Prop :=
+  match e with
+  | DGram now rnd from dest dg =>
+      check_user_and_ip c st now (Z.of_nat u) from = true /\
+      (forall s, check_auth c st now (Z.of_nat s) from = true) /\
+      u_active (getu st u) = true /\ ~ (u_last (getu st u) + src_USER_TIMEOUT_AVAIL < now) /\
+      ~ ServerSafetyFrame.rawlogin login c st now (rx dg) u
+  | _ => False
+  end.
+
+Inductive hostile_run (c : cfg) (u : nat) : sstate -> list devent -> Prop :=
+| hr_nil st : hostile_run c u st []
+| hr_cons st e rest : hostile_step c u st e -> hostile_run c u (fst (dstep login zc unz c st e)) rest ->
+                      hostile_run c u st (e :: rest).
+
+Lemma run_from_fst c : forall evs st o1 o2,
+  fst (run_from login zc unz c (st, o1) evs) = fst (run_from login zc unz c (st, o2) evs).
+Proof.
+  induction evs as [|e rest IH]; intros st o1 o2; [reflexivity|].
+  rewrite !run_from_cons. cbn [fst snd]. apply IH.
+Qed.
+
+Lemma hostile_run_untouched c u : forall evs st, hostile_run c u st evs ->
+  nth_error (fst (run login zc unz c st evs)) u = nth_error st u.
+Proof.
+  induction evs as [|e rest IH]; intros st H; [reflexivity|].
+  inversion H as [|st0 e0 rest0 Hs Hr]; subst.
+  unfold run. rewrite run_from_cons. cbn [fst snd].
+  rewrite (run_from_fst c rest _ _ []). fold (run login zc unz c (fst (dstep login zc unz c st e)) rest).
+  rewrite (IH _ Hr).
+  destruct e as [now rnd from dest dg| | |]; try contradiction.
+  destruct Hs as (H1 & H2 & H3 & H4 & H5). cbn [dstep].
+  apply ServerSafetyFrame.third_party_untouched; assumption.
+Qed.
+
+End Hostile.
+
+(* EOF *)
